@@ -1,5 +1,6 @@
 import XsVerif.Driver.Util
 import XsVerif.Model.Staged
+import XsVerif.Model.Rebuild
 open Lean XsVerif.Driver XsVerif.Staged
 
 namespace XsVerif.Driver.C09
@@ -74,11 +75,68 @@ def opInclude (j : Json) : Except String Json := do
   let order := includeGo docs n [] [root]
   return Json.mkObj [("order", Json.arr (order.map strs).toArray)]
 
+/-! building twice: the registries beside the staged maps (Model/Rebuild.lean) -/
+section Rebuild
+open XsVerif.Rebuild
+
+def parseReq (j : Json) : Except String Req := do
+  match ← getStr j "r" with
+  | "global" => return .glob (← getStr j "n")
+  | "ident" => return .ident (← getStr j "n") (← getStr j "elem")
+  | "subst" => return .subst (← getStr j "head") (← getStr j "member")
+  | r => throw s!"unknown request {r}"
+
+def pairJson (p : String × Nat) : Json := Json.arr #[p.1, p.2]
+
+def sortJson (l : List (String × Json)) : Json :=
+  Json.arr ((l.toArray.qsort (fun a b => a.1 < b.1)).map (·.2))
+
+def mapsJson (m : Maps) : List (String × Json) :=
+  [("store", sortJson (m.store.map fun p => (p.1, pairJson p))),
+   ("idents", sortJson (m.idents.map fun p => (p.1, Json.arr #[p.1, p.2.node, p.2.gen]))),
+   ("subst", sortJson (m.subst.map fun p => (p.1, Json.arr #[p.1,
+      sortJson (p.2.map fun x => (x.1 ++ "#" ++ toString x.2, pairJson x))]))),
+   ("views", match m.views with | some g => (g : Json) | none => Json.null),
+   ("errors", strs (sortStrs m.errors))]
+
+/-- a history of builds of one maps object: `clear` (with the `keep` flags, default: the faithful clear of
+    /repo), `build` with the requests of the step, views read; a step with `"fresh": true` starts from new,
+    empty maps (copy / pickle produce a new object graph) -/
+def opHistory (j : Json) : Except String Json := do
+  let keep : Keep ← (do
+      let k ← j.getObjVal? "keep"
+      pure ⟨← getBool k "store", ← getBool k "idents", ← getBool k "subst", ← getBool k "views"⟩) <|> pure faithful
+  let steps ← getArr j "steps"
+  let mut m := Rebuild.empty
+  let mut g := 0
+  let mut out : Array Json := #[]
+  for st in steps do
+    let reqs ← (← getArr st "reqs").toList.mapM parseReq
+    let fresh ← (getBool st "fresh" <|> pure false)
+    let cur := if fresh then rebuild keep g reqs Rebuild.empty else rebuild keep g reqs m
+    if !fresh || g == 0 then m := cur
+    let mut bind : Array Json := #[]
+    let mut nf : Array Json := #[]
+    for kr in (← (getArr st "keyrefs" <|> pure #[])) do
+      let b := Rebuild.resolve (← getBool kr "own") g cur (← getStr kr "refer")
+      bind := bind.push (Json.arr #[← getStr kr "n", match b with | some x => (x : Json) | none => Json.null])
+    for pr in (← (getArr st "probes" <|> pure #[])) do
+      let b := Rebuild.resolve (← getBool pr "own") g cur (← getStr pr "refer")
+      match b with
+      | some x => nf := nf.push ((notFound x g (← getStrList pr "keys") (← getStrList pr "refs")).length : Json)
+      | none => nf := nf.push Json.null
+    out := out.push (Json.mkObj (mapsJson cur ++ [("gen", (g : Json)), ("keyrefs", Json.arr bind), ("notfound", Json.arr nf)]))
+    g := g + 1
+  return Json.mkObj [("steps", Json.arr out)]
+
+end Rebuild
+
 def handle (j : Json) : Except String Json := do
   match ← getStr j "op" with
   | "build" => opBuild j
   | "resolve" => opResolve j
   | "include" => opInclude j
+  | "history" => opHistory j
   | op => throw s!"unknown op {op}"
 
 end XsVerif.Driver.C09
